@@ -65,10 +65,12 @@ CLAIMED = {
               "concatenated expression text (dump_as_parsed format) for every triple the tables offer; parse_text = the constructor applied to the "
               "numbers the digit groups denote, zone resolved by the configuration; explicit end-to-end instances; basic-only parsers search no "
               "extended form; accepted texts never mix basic and extended parts."),
-        note=("C07_decode_partial stops at the constructor call (evaluation to field values is proved for instances only; the constructor itself is "
-              "characterised under C09); a truncated time without zone after 'T', sign-prefixed forms with 0 expanded digits (they raise ValueError "
-              "in the package: int('')), and three shadowed '-'-signed century forms under allow_truncated are excluded; decimals are exact "
-              "rationals in the model and compared to 1e-9 with the implementation's floats."),
+        note=("Props/C07Ext.v closes the gap left by C07_decode_partial: C07_decode_full gives the parse result as an explicit point (year from the digits and "
+              "sign, representation per form, fraction on the last unit, written or configured zone) exactly when that point is Spec-valid and BadInput "
+              "otherwise; a date alone; dump_as_parsed reproduces the text (decimals canonicalised; the three necessary side conditions have refuted "
+              "witnesses); truncated date/time forms incl. a truncated time without zone. Sign-prefixed forms with 0 expanded digits (they raise ValueError "
+              "in the package: int('')) and three shadowed '-'-signed century forms under allow_truncated are excluded; decimals are exact "
+              "rationals in the model and compared to 1e-9 (printed texts: one unit in the last digit beyond six decimals) with the implementation's floats."),
         technique="Coq proof (generic regex-token lemma + vm_compute reflection over generated tables) + exhaustive form x configuration correspondence",
         design="7 C07"),
     "C08": dict(
